@@ -71,3 +71,11 @@ Print Assumptions C02_legacy_header_refuted.
 Example C02_wf_instance : match encode_fit (mkecfg false false 0 proto_V2 false) (one_msg_file 14) with
   | Ok r => wf_stream_b (er_bytes r) 1 = true | _ => False end.
 Proof. vm_compute. reflexivity. Qed.
+
+(* chained files: the output for a list of files (14-byte headers) is exactly that many well-formed sequences and nothing else --
+   nothing between and nothing after them *)
+From Fit Require Import Proofs.WfChain.
+Theorem C02_chain_wf : forall c fs out, encode_fits c fs [] = Ok out -> Forall (fun f => (ef_hsize f =? 12) = false) fs ->
+  bytes_ok out -> len out < 2 ^ 32 -> wf_stream_b out (N.of_nat (length fs)) = true.
+Proof. exact encode_fits_wf_b. Qed.
+Print Assumptions C02_chain_wf.
